@@ -1,7 +1,7 @@
 ------------------------------- MODULE GoNum -------------------------------
 (***************************************************************************)
 (* The values compare.Compare is applied to (property C15): numbers of the  *)
-(* twelve Go numeric kinds and strings.  A number is [kind, p] where p is    *)
+(* twelve Go numeric kinds and strings (among the points two pairs of neighbours a few units in the last place apart: 0.3 / 0.30000000000000004 and 2^53 - 2 / 2^53 - 1).  A number is [kind, p] where p is    *)
 (* the rank of its mathematical value in the ascending list Points - TLC    *)
 (* integers are 32-bit, so 64-bit magnitudes never enter TLC arithmetic and  *)
 (* the mathematical order is the order of ranks.  Each point carries its     *)
@@ -27,6 +27,8 @@ Points == <<
   [dec |-> "-1",     int |-> TRUE,  f32 |-> TRUE, itxt |-> <<45, 49>>, ftxt |-> <<45, 49>>],
   [dec |-> "-0.5",   int |-> FALSE, f32 |-> TRUE, itxt |-> <<45, 48, 46, 53>>, ftxt |-> <<45, 48, 46, 53>>],
   [dec |-> "0",      int |-> TRUE,  f32 |-> TRUE, itxt |-> <<48>>, ftxt |-> <<48>>],
+  [dec |-> "0.3",    int |-> FALSE, f32 |-> FALSE, itxt |-> <<48, 46, 51>>, ftxt |-> <<48, 46, 51>>],
+  [dec |-> "0.30000000000000004", int |-> FALSE, f32 |-> FALSE, itxt |-> <<48, 46, 51, 48, 48, 48, 48, 48, 48, 48, 48, 48, 48, 48, 48, 48, 48, 48, 52>>, ftxt |-> <<48, 46, 51, 48, 48, 48, 48, 48, 48, 48, 48, 48, 48, 48, 48, 48, 48, 48, 52>>],
   [dec |-> "0.5",    int |-> FALSE, f32 |-> TRUE, itxt |-> <<48, 46, 53>>, ftxt |-> <<48, 46, 53>>],
   [dec |-> "1",      int |-> TRUE,  f32 |-> TRUE, itxt |-> <<49>>, ftxt |-> <<49>>],
   [dec |-> "1.5",    int |-> FALSE, f32 |-> TRUE, itxt |-> <<49, 46, 53>>, ftxt |-> <<49, 46, 53>>],
@@ -45,6 +47,8 @@ Points == <<
   [dec |-> "2147483648", int |-> TRUE, f32 |-> FALSE, itxt |-> <<50, 49, 52, 55, 52, 56, 51, 54, 52, 56>>, ftxt |-> <<50, 46, 49, 52, 55, 52, 56, 51, 54, 52, 56, 101, 43, 48, 57>>],
   [dec |-> "4294967295", int |-> TRUE, f32 |-> FALSE, itxt |-> <<52, 50, 57, 52, 57, 54, 55, 50, 57, 53>>, ftxt |-> <<52, 46, 50, 57, 52, 57, 54, 55, 50, 57, 53, 101, 43, 48, 57>>],
   [dec |-> "4294967296", int |-> TRUE, f32 |-> FALSE, itxt |-> <<52, 50, 57, 52, 57, 54, 55, 50, 57, 54>>, ftxt |-> <<52, 46, 50, 57, 52, 57, 54, 55, 50, 57, 54, 101, 43, 48, 57>>],
+  [dec |-> "9007199254740990", int |-> TRUE, f32 |-> FALSE, itxt |-> <<57, 48, 48, 55, 49, 57, 57, 50, 53, 52, 55, 52, 48, 57, 57, 48>>, ftxt |-> <<57, 46, 48, 48, 55, 49, 57, 57, 50, 53, 52, 55, 52, 48, 57, 57, 101, 43, 49, 53>>],
+  [dec |-> "9007199254740991", int |-> TRUE, f32 |-> FALSE, itxt |-> <<57, 48, 48, 55, 49, 57, 57, 50, 53, 52, 55, 52, 48, 57, 57, 49>>, ftxt |-> <<57, 46, 48, 48, 55, 49, 57, 57, 50, 53, 52, 55, 52, 48, 57, 57, 49, 101, 43, 49, 53>>],
   [dec |-> "9007199254740992", int |-> TRUE, f32 |-> FALSE, itxt |-> <<57, 48, 48, 55, 49, 57, 57, 50, 53, 52, 55, 52, 48, 57, 57, 50>>, ftxt |-> <<57, 46, 48, 48, 55, 49, 57, 57, 50, 53, 52, 55, 52, 48, 57, 57, 50, 101, 43, 49, 53>>] >>
 
 NP == Len(Points)
